@@ -2,6 +2,7 @@ import DarkluaModel.Shared.VisitorSound.HeapU.USteps
 import DarkluaModel.Shared.VisitorSound.HeapU.USelf
 import DarkluaModel.Shared.VisitorSound.HeapU.UOracle
 import DarkluaModel.Shared.VisitorSoundHeap
+import DarkluaModel.Shared.VisitorSoundHeapV
 /-!
 # Stage 4, unified (`Sem.HeapU`): renumbering of cells, tables and closures + context + private heap invariants
 
@@ -203,5 +204,35 @@ theorem HooksExact.toU (H : HooksExact P) (F : HooksNoRef P) : HooksU cx P where
   insertLocalName := H.insertLocalName
   insertLocalVal := fun n v s => .single (.ofEq (H.insertLocalVal n v s) (fun D _ => F.insertLocalVal n v s D))
   insertLocalFn := H.insertLocalFn
+
+/-! ## Worked instance: the `Demo.DropUnusedAlloc` pass again, through the unified development -/
+namespace Demo.DropUnusedAllocU
+open Demo.DropUnusedAlloc
+
+theorem hooksU : HooksU HeapU.Cx.none processor where
+  scopeB := fun b s => by
+    cases b with
+    | mk ss last =>
+      simp only [processor, scopeHook]
+      rcases dropIn_spec (fun _ => false) last ss with h | ⟨pre, k, ns, vs, rest, h1, h2, h3, h4⟩
+      · rw [h]; exact .refl _
+      · rw [h2, h1]
+        exact .single (HeapU.VkB.dropLocal (HeapU.allocPureAll_sound vs h3) fun n hn => (h4 n hn).1)
+  scopeR := fun b c s => by
+    cases b with
+    | mk ss last =>
+      simp only [processor, scopeHook, Option.getD]
+      rcases dropIn_spec (fun n => c.refs (.ref n)) last ss with h | ⟨pre, k, ns, vs, rest, h1, h2, h3, h4⟩
+      · rw [h]; exact .refl _
+      · rw [h2, h1]
+        exact .single (HeapU.VkRep.dropLocal (HeapU.allocPureAll_sound vs h3) (fun n hn => (h4 n hn).1)
+          (fun n hn => (h4 n hn).2))
+
+theorem run_refines (b : Block) (n : Nat) (externs : List String) :
+    runProgram Shared.driverOracle n externs (Visitor.runScoped processor b ()).1 =
+      runProgram Shared.driverOracle n externs b :=
+  Visitor.runScoped_u hooksU b () _ HeapU.driverOracle_flat n externs
+
+end Demo.DropUnusedAllocU
 
 end DarkluaModel
